@@ -1,6 +1,6 @@
 (* C20 - equality is an equivalence and agrees with hashing.  Statements only; proofs in Proofs/EqProofs.v.
    eqv e := e is reflexive, symmetric and transitive (as a boolean relation). *)
-From ML Require Import Model.Types gen.Tables Model.Pitch Model.Ton Model.Code Proofs.TonProofs Proofs.EqProofs.
+From ML Require Import Model.Types gen.Tables Model.Pitch Model.Ton Model.Code Model.Copy Proofs.TonProofs Proofs.EqProofs Proofs.CopyProofs.
 From Coq Require Import QArith.
 Open Scope Z_scope.
 
@@ -45,6 +45,33 @@ Theorem C20_equiv_score :
   (forall a b, Forall wf_chord a -> Forall wf_chord b -> score_eqb a b = true -> score_eqb b a = true) /\
   (forall a b c, score_eqb a b = true -> score_eqb b c = true -> score_eqb a c = true).
 Proof. repeat split; [exact score_eqb_refl|exact score_eqb_sym|exact score_eqb_trans]. Qed.
+
+(* an object and its copy: whatever the rounding the Note constructor applies to the duration, the copy of a note has the
+   original's fields, so notes, melodies, chords and scores are equal to their copies and notes hash like them *)
+Theorem C20_copy_note : forall round n, wf_note n = true ->
+  note_copy round n = n /\ note_eqb (note_copy round n) n = true /\ note_hash_key (note_copy round n) = note_hash_key n.
+Proof. intros round n W. split; [exact (note_copy_id round n W)|split; [exact (note_copy_equal round n W)|exact (note_copy_hash round n W)]]. Qed.
+
+Theorem C20_copy_melody : forall round m, forallb wf_note m = true -> melody_eqb (melody_copy round m) m = true.
+Proof. exact melody_copy_equal. Qed.
+
+Theorem C20_copy_chord : forall round c, wf_chord c -> wf_parts c = true -> fchord_eqb (fchord_copy round c) c = true.
+Proof. exact fchord_copy_equal. Qed.
+
+Theorem C20_copy_score : forall round s, Forall wf_chord s -> forallb wf_parts s = true -> score_eqb (score_copy round s) s = true.
+Proof. exact score_copy_equal. Qed.
+
+(* the copy methods before the repairs 190c1fb / c3d0291 / 3de5c96 gave an equal note exactly when the constructor's rounding
+   left the duration alone and, for a rest or continuation, the octave was 0 and there was no mode *)
+Theorem C20_copy_before_repairs : forall round n, wf_note n = true ->
+  (note_eqb (note_copy_old round n) n = true <->
+   (round (fdur n) == fdur n)%Q /\ (is_rest_kind (fk n) = true -> fo n = 0 /\ fmode n = None)).
+Proof. exact note_copy_old_equal_iff. Qed.
+
+Theorem C20_copy_before_repairs_refuted :
+  (forall round, note_eqb (note_copy_old round (mkF KR Abs 0 1 1 None None 66 [])) (mkF KR Abs 0 1 1 None None 66 []) = false) /\
+  note_eqb (note_copy_old (fun _ => 0%Q) (mkF KS Abs 0 0 (1 # 21952) None None 66 [])) (mkF KS Abs 0 0 (1 # 21952) None None 66 []) = false.
+Proof. exact note_copy_old_refuted. Qed.
 
 (* non-vacuity: s0 == s0.f (amplitude is not compared), same hash key; part order does not matter *)
 Example C20_ex_note :
